@@ -56,6 +56,7 @@ type UnitSpec struct {
 	RewriteSync []string    `json:"rewrite_sync"` // repo files that get a verif_Yield() before every lock/atomic operation
 	Dir       string        `json:"dir"`
 	Files     []string      `json:"files"`
+	Stubs     map[string]string `json:"stubs"` // callee (full name) -> harness function run in its place under the engine (environment model in Go); natively the real callee runs
 	Harnesses []HarnessSpec `json:"harnesses"`
 }
 
@@ -588,6 +589,16 @@ func cmdCheck(args []string) int {
 				Bounds: bounds, ConcretizeMax: get("concretize_max", 64), KnownListed: knownListed,
 				QueryTimeout: get("query_timeout_ms", 20000), LoopFuel: get("loop_fuel", 2000), RepoModule: repoModule, Trace: *trace,
 				BudgetIsViolation: h.NoTermIs == "violation", DeadlockIsViolation: h.DeadlockIs == "violation"}
+			if len(u.Stubs) > 0 {
+				cfg.Stubs = map[string]*ssa.Function{}
+				for callee, hf := range u.Stubs {
+					sf := spkg.Func(hf)
+					if sf == nil {
+						fatalf("stub %s for %s not found in %s", hf, callee, u.Dir)
+					}
+					cfg.Stubs[callee] = sf
+				}
+			}
 			fn := spkg.Func(h.Name)
 			if fn == nil {
 				fatalf("harness %s not found in %s", h.Name, u.Dir)
